@@ -560,6 +560,12 @@ Fixpoint nodup_sid (seen : list nat) (f : list event) : bool :=
 Definition valid_delivery (c : list event * list obs_listener) : bool :=
   nodup_sid [] (fst c) && forallb (listener_ok (fst c)) (snd c).
 
+(* a notification is the one its sync owes: publisher, CID and block count of that very sync
+   (the conclusion of one_event_per_updating_sync); case = (observed event, (sync id, kind, blocks
+   that sync fetched)) *)
+Definition valid_event (c : event * (nat * kind * N)) : bool :=
+  event_eqb (fst c) (mk_event (fst (fst (snd c))) (snd (fst (snd c))) (snd (snd c)) false).
+
 (* completion order vs. event order of one publisher's announce-triggered syncs:
    case = (sync ids in order of completion, sync ids in order of their events) *)
 Definition valid_order (c : list nat * list nat) : bool := prefixb (snd c) (fst c).
